@@ -813,7 +813,9 @@ func (envs *Manager) TeardownEnvironment(environmentId uid.ID, force bool) error
 		WorkflowTemplateInfo: env.GetWorkflowInfo(),
 	})
 
-	// we trigger all cleanup hooks, first calls, then tasks immediately after
+	// we trigger all cleanup hooks, first calls, then tasks immediately after;
+	// every hook task is released afterwards, whatever its weight and whether it could be triggered or not
+	hookTasksToRelease := make(task.Tasks, 0)
 	for _, weight := range allWeights {
 		hooksForWeight, ok := hooksMapForDestroy[weight]
 		if ok {
@@ -821,6 +823,7 @@ func (envs *Manager) TeardownEnvironment(environmentId uid.ID, force bool) error
 
 			// calls done, we start the task hooks...
 			cleanupTaskHooks := hooksForWeight.FilterTasks()
+			hookTasksToRelease = append(hookTasksToRelease, cleanupTaskHooks...)
 
 			// ...but only if their parent role is still ACTIVE (i.e. not killed or executor failed)
 			cleanupTaskHooks = cleanupTaskHooks.Filtered(func(t *task.Task) bool {
@@ -836,10 +839,10 @@ func (envs *Manager) TeardownEnvironment(environmentId uid.ID, force bool) error
 					Warn("environment post-destroy hooks failed")
 			}
 
-			// and then we kill them too
-			taskmanMessage = task.NewEnvironmentMessage(taskop.ReleaseTasks, environmentId, cleanupTaskHooks, nil)
 		}
 	}
+	// and then we kill them too
+	taskmanMessage = task.NewEnvironmentMessage(taskop.ReleaseTasks, environmentId, hookTasksToRelease, nil)
 
 	verifhook.Point("env.teardown.phase", "env", environmentId.String(), "phase", "destroyhooks")
 	envs.cancelCallsPendingAwait(env)
